@@ -86,24 +86,29 @@ def run(ctx):
     ok = len(vb) == 2 and {d.rhs.canon() for d in vb} == {'self._io.vbus_valid.i', '1'}
     ctx.ob('C25.pad', 'GatewarePHY.vbus_valid', ok, vb[0].loc if vb else None, 'vbus_valid follows the pad or is tied to 1')
     # ---------------------------------------------------------------- (c) bit stuffing
-    _stuffer(ctx, 'TxBitstuffer', 'transmitter', 'self.i_data', None, 'stuff_bit')
-    _stuffer(ctx, 'RxBitstuffRemover', 'receiver', 'self.i_data', 'self.i_valid', 'drop_bit')
     tb = ctx.ir('TxBitstuffer', 'transmitter')
+    # the stuff flag by role: what o_stall shows -- a local flag copied to the output, or the output raised in the state itself
+    st = tb.drivers('self.o_stall', exact=True)
+    SB = 'self.o_stall'
+    if len(st) == 1 and st[0].domain == 'comb' and not st[0].guard and st[0].state is None and st[0].rhs.op == 'sig':
+        SB = st[0].rhs.canon()
+    _stuffer(ctx, 'TxBitstuffer', 'transmitter', 'self.i_data', None, SB)
+    _stuffer(ctx, 'RxBitstuffRemover', 'receiver', 'self.i_data', 'self.i_valid', 'drop_bit')
     od = tb.drivers('self.o_data', exact=True)
     # next o_data for every valuation of (stuff_bit, i_data): 0 while stuffing, the data bit otherwise -- an If/Else, a Mux
     # and `i_data & ~stuff_bit` are one table
     ok = bool(od)
     try:
         for asg, val in q.flag_values(tb, 'self.o_data', None, init=None):
-            if 'stuff_bit' not in asg or 'self.i_data' not in asg or val is not (asg['self.i_data'] and not asg['stuff_bit']):
+            if SB not in asg or 'self.i_data' not in asg or val is not (asg['self.i_data'] and not asg[SB]):
                 ok = False
     except Exception:
         ok = False
     ctx.ob('C25.stuffed-bit', 'TxBitstuffer.o_data', ok, od[0].loc if od else None,
            'the stuffed bit must be a 0, data passes otherwise: %s' % [q.fmt(d) for d in od])
-    st = tb.drivers('self.o_stall', exact=True)
-    ctx.ob('C25.stuffed-bit', 'TxBitstuffer.o_stall', len(st) == 1 and st[0].rhs.canon() == 'stuff_bit', None,
-           'o_stall must be the stuff-bit flag')
+    ctx.ob('C25.stuffed-bit', 'TxBitstuffer.o_stall', bool(st) and all(a.domain == 'comb' for a in st) and
+           (SB != 'self.o_stall' or all(q.is_one(a.rhs) and not a.guard and a.state is not None for a in st)), None,
+           'o_stall must be the stuff-bit flag (raised unconditionally in the stuffing state): %s' % [q.fmt(a) for a in st])
     rb = ctx.ir('RxBitstuffRemover', 'receiver')
     er = rb.drivers('self.o_error', exact=True)
     ok = len(er) == 1 and er[0].rhs.canon() == 'drop_bit & self.i_data & self.i_valid'
@@ -309,7 +314,24 @@ def _nrzi_tx(ctx):
         for a in ir.assigns:
             if a.state == (fsm.id, st) and a.domain == 'comb' and not a.guard and a.rhs.op == 'const':
                 vals[a.lhs.canon()] = a.rhs.val
-        out[st] = (vals.get('usbp'), vals.get('usbn'), vals.get('oe'))
+        # what the registered outputs load in this state: their unconditional drivers evaluated with the constants the state
+        # gives the combinational locals (three one-bit locals, or one level word sliced into the three outputs)
+        from ..num import ev as _nev, NoEval as _NoEval
+        trip = []
+        for o in ('self.o_usbp', 'self.o_usbn', 'self.o_oe'):
+            ds = [a for a in ir.drivers(o, exact=True) if not a.guard and a.state is None and a.domain != 'comb']
+            v = None
+            if len(ds) == 1:
+                try:
+                    env = dict(vals)
+                    for n_, si_ in ir.signals.items():
+                        if isinstance(getattr(si_, 'w', None), int):
+                            env['$w:' + n_] = si_.w
+                    v = int(_nev(ds[0].rhs, env)) & 1
+                except (_NoEval, KeyError):
+                    v = None
+            trip.append(v)
+        out[st] = tuple(trip)
     J = [s for s in fsm.states if out[s] == (1, 0, 1)]
     K = [s for s in fsm.states if out[s] == (0, 1, 1)]
     SE0 = [s for s in fsm.states if out[s] == (0, 0, 1)]
@@ -352,7 +374,8 @@ def _nrzi_tx(ctx):
         ctx.ob('C25.nrzi-tx', 'TxNRZIEncoder.' + name, ok, fsm.loc, msg)
     for o in ('o_oe', 'o_usbp', 'o_usbn'):
         ds = ir.drivers('self.' + o, exact=True)
-        ctx.ob('C25.nrzi-tx', 'TxNRZIEncoder.' + o, len(ds) == 1 and ds[0].rhs.canon() == o[2:], None, 'registered output')
+        ctx.ob('C25.nrzi-tx', 'TxNRZIEncoder.' + o, len(ds) == 1 and ds[0].domain != 'comb' and not ds[0].guard and ds[0].state is None,
+               None, 'registered output, loaded unconditionally with the level of the current state: %s' % [q.fmt(a) for a in ds])
 
 
 def _cdr(ctx):
